@@ -225,13 +225,19 @@ def sameSet (a b : List Nat) : Bool := a.all (b.contains ·) && b.all (a.contain
 
 /-- `fix_resonance(logging=True)` up to (not including) `flush_cache / calc_labels / fix_stereo`: the molecule and `hs`.
     `radOrder`, `entOrder` = `list(rads)`, `list(entries)` of the real sets (slot order); `none` = crash or order mismatch -/
-def fixResonance (m : Mol) (L : Labels) (radOrder entOrder : List Nat) : Option (Mol × List Nat) := do
-  let s ← entriesOf m L
-  if !(sameSet s.rads radOrder && sameSet s.entries entOrder) then none
-  let st1 ← radLoop radOrder s.transfer (m.atoms.length + 1) s.rads { mol := m }
-  let st2 ← chargeLoop entOrder s (m.atoms.length + 1) s.entries s.exits st1
-  if st2.hs.isEmpty then return (st2.mol, [])
-  let m' ← recalc st2.hs st2.mol
-  return (m', st2.hs)
+def fixResonance (m : Mol) (L : Labels) (radOrder entOrder : List Nat) : Option (Mol × List Nat) :=
+  match entriesOf m L with
+  | none => none
+  | some s =>
+    if !(sameSet s.rads radOrder && sameSet s.entries entOrder) then none
+    else
+      match radLoop radOrder s.transfer (m.atoms.length + 1) s.rads { mol := m } with
+      | none => none
+      | some st1 =>
+        match chargeLoop entOrder s (m.atoms.length + 1) s.entries s.exits st1 with
+        | none => none
+        | some st2 =>
+          if st2.hs.isEmpty then some (st2.mol, [])
+          else (recalc st2.hs st2.mol).map fun m' => (m', st2.hs)
 
 end ChythonModel.Model.Std
